@@ -98,20 +98,24 @@ def gen_case(rng, tier, big=False):
         attach['systems'][''] = f()
     return {'spec': spec, 'driver': driver, 'runs': runs, 'nfiles': nfiles, 'attach': attach,
             'record_derivatives': dtype == 'slsqp' and rng.random() < 0.7,
-            'viewer': rng.random() < 0.8, 'kills': 'all', 'sigkills': 3 if tier == 'quick' else 12,
+            'viewer': rng.random() < 0.8, 'real_kills': 3 if tier == 'quick' else 10,
+            'sigkills': 2 if tier == 'quick' else 10,
             'seed': rng.randrange(10 ** 6)}
 
 
 def gen(tier, rng):
-    n = 16 if tier == 'quick' else 100
+    n = 24 if tier == 'quick' else 200
     return [gen_case(rng, tier, big=(tier != 'quick')) for _ in range(n)]
 
 
 RULE = ('generated recorded runs (models of 1-3 components, optional groups/coupling; run_model / DOEDriver / '
         'ScipyOptimizeDriver sequences; recorders on problem, driver, systems, solvers, one or two files); every '
-        'SQL statement boundary of every run is a crash point (os._exit inside the sqlite trace callback, plus '
-        'exit after the last statement without close), plus SIGKILLs at random times; an evaluation is one '
-        '(run, crash point, file) triple read back with the real CaseReader')
+        'SQL statement boundary of every run is a crash point: the bytes of the database and its rollback journal '
+        'as the operating system holds them at that boundary (copied from inside the sqlite trace callback) are '
+        'what a process death there leaves; a sample of boundaries per run is re-run in a child process that '
+        'really dies there (os._exit inside the trace callback; exit after the last statement without close) and '
+        'children are SIGKILLed at random times; an evaluation is one (run, crash point, file) triple read back '
+        'with the real CaseReader')
 
 ASSUMPTIONS = [
     'SQLite atomic commit / rollback-journal recovery after a process death (not modelled: journal, fsync, torn '
@@ -149,13 +153,14 @@ def run_cases(v, wd, cases, tag, compare=True):
         v.cov['broken_detail'] = log[-3000:]
         return False
     got, want, idx = [], [], []
-    tot = {'crash_points': 0, 'prestart': 0, 'sigkill': 0, 'nstmt': 0, 'cases_listed': 0}
+    tot = {'crash_points': 0, 'prestart': 0, 'sigkill': 0, 'real_kills': 0, 'nstmt': 0, 'distinct_file_states': 0,
+           'cases_listed': 0}
     for i, (c, r) in enumerate(zip(cases, results)):
         st = r.get('stats', {})
         for k in tot:
             tot[k] += st.get(k, 0)
         tot['cases_listed'] += sum(r.get('ncases', []))
-        nev = max(1, st.get('crash_points', 0) * c['nfiles'] + st.get('sigkill', 0) * c['nfiles'])
+        nev = max(1, (st.get('crash_points', 0) + st.get('real_kills', 0) + st.get('sigkill', 0)) * c['nfiles'])
         for j in range(nev):
             v.count_case({'case': i, 'point': j, 'scenario': c} if j == 0 else {'case': i, 'point': j, 'tag': tag,
                                                                                'seed': c.get('seed')},
@@ -171,7 +176,7 @@ def run_cases(v, wd, cases, tag, compare=True):
         bad, errors, cmd = coq_mismatches(wd, ['C18.Model'], got, want, shard=2, tag='cases_' + tag)
         v.add_correspondence('wf_trace(real statement stream) = true, counters_ok, and reader_view(db_after_crash '
                              'trace k) = what the real CaseReader lists after a death at k, for every k',
-                             tot['crash_points'] + tot['sigkill'], len(bad),
+                             tot['crash_points'] + tot['real_kills'] + tot['sigkill'], len(bad),
                              'E1 (integer-exact: table, row id, counter of every listed case)', cmd)
         if errors:
             v.broke('correspondence:model-evaluation-failed')
